@@ -663,6 +663,12 @@ pub struct LtCtx {
 }
 
 impl LtCtx {
+    /// A realm that a conforming server cannot have sent (the reference server only sends ASCII realms, which
+    /// OpaqueString leaves alone): it can only stem from damage in flight. What keys and hashes must be derived
+    /// from such a realm is not defined by the properties, so key-dependent rules are not applied to it.
+    pub fn exotic_realm(&self) -> bool {
+        !self.realm.is_ascii()
+    }
     pub fn kind(&self) -> Alg {
         if self.algs_raw.is_some() {
             Alg::Sha
@@ -719,6 +725,9 @@ impl LtTrack {
     pub fn key_for_request(&self, step: usize, req: &Parsed, cfg: &Cfg) -> Option<Vec<u8>> {
         let (ctx, _) = self.at(step);
         let ctx = ctx?;
+        if ctx.exotic_realm() {
+            return None;
+        }
         let alg = match req.find(wire::A_PASSWORD_ALGORITHM).and_then(|a| wire::password_algorithms_parse(&a.value)) {
             Some(x) if !x.is_empty() => x[0].0,
             _ => ctx.chosen.unwrap_or_else(|| {
@@ -958,6 +967,7 @@ pub fn check_c08(l: &Ledger) -> Vec<Violation> {
                                 }
                             }
                         }
+                        Some(c) if c.exotic_realm() => {}
                         Some(c) => {
                             if let Err(reason) = strict_server_accepts(b, &p, c, &l.cfg) {
                                 out.push(v(
@@ -1007,6 +1017,9 @@ pub fn check_c08(l: &Ledger) -> Vec<Violation> {
                 // them; for messages damaged in flight only the safety rules apply (a damaged challenge may
                 // carry an empty realm, a nonce that is no longer a quoted-string, ...)
                 let corrupted = !fault.is_empty();
+                if ctx.map_or(false, |c| c.exotic_realm()) {
+                    continue;
+                }
                 let got = delivered(st, &id, 2);
                 let retried = st.events.iter().any(|e| matches!(e, Ev::Retry(i) if *i == id));
                 let dnr = failed_with(st, &id, Why::DoNotRetry);
